@@ -49,14 +49,37 @@ TAG_OPTS = ['', '', '', 'sort=x', 'sort=x/cmp/desc', 'reverse',
             'no_push_item', 'no_push_item sort=x size=4 orphan=0']
 
 
-def template(mapping, name='x', opts=''):
+def wval(i):
+    """Values of the second summarised variable `w` (always numbers)."""
+    return (i * 7) % 5 + 100
+
+
+def template(mapping, name='x', opts='', order=0):
+    """order: 0 = the statistics of `name` only; 1 = interleaved with the
+    same statistics of a second variable `w`; 2 = all of w first; 3 = w
+    interleaved, statistics in reverse order.  The result lists the values
+    for `name` in the order of NAMES, then median-w and count-w."""
     from DocumentTemplate import HTML
-    key = (mapping, name, opts)
+    key = (mapping, name, opts, order)
     if key not in _T:
-        expr = '[' + ', '.join("_['%s-%s']" % (n, name) for n in NAMES) + ']'
-        _T[key] = HTML('<dtml-in s%s %s><dtml-if sequence-end><dtml-return '
-                       '"%s"></dtml-if></dtml-in>' % (
-                           ' mapping' if mapping else '', opts, expr))
+        names = NAMES[::-1] if order == 3 else NAMES
+        refs = []
+        if order == 2:
+            refs += [(n, 'w') for n in names]
+        for n in names:
+            refs.append((n, name))
+            if order in (1, 3):
+                refs.append((n, 'w'))
+        lets = ' '.join('v%d="_[\'%s-%s\']"' % (k, n, nm)
+                        for k, (n, nm) in enumerate(refs))
+        pos = {r: k for k, r in enumerate(refs)}
+        expr = '[' + ', '.join('v%d' % pos[(n, name)] for n in NAMES)
+        if order:
+            expr += ', v%d, v%d' % (pos[('median', 'w')], pos[('count', 'w')])
+        expr += ']'
+        _T[key] = HTML('<dtml-in s%s %s><dtml-if sequence-end><dtml-let %s>'
+                       '<dtml-return "%s"></dtml-let></dtml-if></dtml-in>' % (
+                           ' mapping' if mapping else '', opts, lets, expr))
     return _T[key]
 
 
@@ -71,19 +94,34 @@ def check(case):
     name = STAT_NAMES[case.get('name', 0) % len(STAT_NAMES)]
     seq = [{name: v} for v in vals] if mapping else [O(v, name)
                                                      for v in vals]
+    order = case.get('order', 0) % 4
+    for i, e in enumerate(seq):
+        if mapping:
+            e['w'] = wval(i)
+        else:
+            e.w = wval(i)
     opts = TAG_OPTS[case.get('opts', 0) % len(TAG_OPTS)]
     if 'nocase' in opts and (case['kind'] != 'str' or None in vals):
         # a comparison function of the author's is only handed real strings
         opts = opts.replace('/nocase/desc', '/cmp/desc').replace('/nocase',
                                                                  '')
     try:
-        out = template(mapping, name, opts.replace('sort=x',
-                                                   'sort=' + name))(s=seq)
+        out = template(mapping, name, opts.replace('sort=x', 'sort=' + name),
+                       order)(s=seq)
     except Exception as e:
         kind = 'equal-floats' if len(set(v for v in vals if v is not None)) \
             == 1 else 'other'
         return ('exception:%s:%s' % (type(e).__name__, kind),
                 '%r raised %r' % (vals, e))
+    if order and isinstance(out, list) and len(out) == len(NAMES) + 2:
+        ws = sorted(wval(i) for i in range(len(vals)))
+        mw, cw = out[-2:]
+        out = out[:-2]
+        okm = ws[(len(ws) - 1) // 2] <= mw <= ws[len(ws) // 2] \
+            if isinstance(mw, (int, float)) else False
+        if cw != len(ws) or not okm:
+            return ('second-variable', '%r: w values %r give median-w %r '
+                    'count-w %r' % (vals, ws, mw, cw))
     if not isinstance(out, list) or len(out) != len(NAMES):
         return 'no-result', '%r returned %r' % (vals, out)
     d = dict(zip(NAMES, out))
@@ -247,8 +285,9 @@ def strategy():
         lambda v: dict(kind='date', vals=v))
     return st.tuples(st.one_of(base, base, base, base, dates),
                      st.booleans(), st.integers(0, 13),
-                     st.integers(0, 8)).map(
-        lambda t: dict(t[0], mapping=t[1], opts=t[2], name=t[3]))
+                     st.integers(0, 8), st.integers(0, 3)).map(
+        lambda t: dict(t[0], mapping=t[1], opts=t[2], name=t[3],
+                       order=t[4]))
 
 
 def nontrivial(case):
